@@ -227,16 +227,35 @@ def hist_case(draw):
     return {"runs": runs}
 
 
+_defaults = {}
+
+
+def learned_defaults():
+    """The documented defaults are read from the code itself: a first run without any parameter in a fresh process
+    (this function is called before any other launch_sim in the worker)."""
+    if not _defaults:
+        m = launch()
+        with cy.quiet():
+            log = m.launch_sim({"tf": 0.02, "estimators": ["mrp"], "initialize": False, "x0": [0, 0, 0, 0, 0, 0], "name": "defaults", "params": {}})
+        rec = log["params"][-1]
+        for k in rec.dtype.names:
+            if k != "time":
+                _defaults[k] = float(rec[k])
+    return _defaults
+
+
 def check_history(case):
     m = launch()
+    base = learned_defaults()
     for i, r in enumerate(case["runs"]):
         prm = dict(r["params"])
         prm["sim/enable_noise"] = False
         with cy.quiet():
             log = m.launch_sim({"tf": 1.0, "estimators": ["mrp"], "initialize": r["initialize"], "x0": [0.1, -0.1, 0.2, 0.01, 0.0, -0.01],
                                 "name": "h%d" % i, "params": prm})
-        want = dict(DEFAULTS)
+        want = dict(base)
         want.update(r["params"])
+        want["sim/enable_noise"] = 0.0
         rec = log["params"][-1]
         for k, v in want.items():
             got = float(rec[k])
